@@ -7,16 +7,19 @@ import types
 import numpy
 
 from lib import common as C
+from py2v import gen
 
 PROP = "C19"
-PROPS_FILES = ["Props/C19.v"]
+PROPS_FILES = ["Props/C19.v", "Props/C19_cdf.v"]
 ASSUMPTIONS = [
   "exact arithmetic over Q: every finite double is a rational; on the exact streams (dyadic coordinates, power-of-two widths, "
   "square one-hot dimension) every double operation of the implementation is exact, elsewhere a stated tolerance is used",
   "squared distances, no sqrt: 'within the repulsion radius' is squared distance < distance parameter (DESIGN 7.0); the "
   "categorical target numpy.sqrt(one_hot_dim) is an argument t of the model, theorems hold for every t",
   "the failure model is a function point -> [0,1] evaluated row by row (contract; the logistic and product forms are proved to "
-  "keep [0,1], norm.cdf in [0,1] is assumed for the CDF form)",
+  "keep [0,1]; for the CDF form - the one the search endpoints build - the range is a theorem about the definitions regenerated from "
+  "probabilistic_failures.py (Props/C19_cdf.v: every factor Phi((t - mean)/sd) lies in (0,1) by the Gaussian integral proved in Lib/Gauss.v, the product in [0,1]); "
+  "that scipy.stats.norm.cdf is Phi remains a contract)",
   "the failure model's dimension equals the domain's one-hot dimension (the constructor does not check it)",
   "the optimiser is an arbitrary function of the acquisition function's state; numpy.random.choice in get_distance_parameter "
   "returns a member of the list it is given",
@@ -740,6 +743,10 @@ def nontrivial(kind, inp, out):
   if kind in ("search", "unit", "dist", "view"):
     return oh_dim(inp["domain"]) >= 2
   return True
+
+
+def generate(ctx):
+  return gen.generate(ctx, ["GenAcq"])   # Props/C19_cdf.v is stated on the regenerated CDF / product models
 
 
 def correspondence(ctx):
